@@ -1,7 +1,7 @@
 check("C15", "model_checking",
       "TLC model-checks the diagnostics specification SyltDiag (well-formed index-addressed universe of planted local errors; "
       "text-derived line index agrees with a running newline counter on every prefix of the spec's sample texts), then validates, "
-      "for every applicable case of error kind (13) x file (main / imported sibling / imported from sub-folder) x position "
+      "for every applicable case of error kind (14) x file (main / imported sibling / imported from sub-folder) x position "
       "(first/middle/last top-level statement, function body, if-branch) x preceding text shape (none, ASCII/non-ASCII comment, "
       "non-ASCII string, string literal spanning 2 and 3 lines, blank lines, CRLF, tabs) and for seeded random stacked variations, "
       "that the FIRST error the real compiler returns names the file and the line TLC derives from the recorded text and the "
